@@ -193,7 +193,9 @@ def run(
     if res.violation is None and ("Error:" in text):
         fatal = True
     if fatal:
-        tail = "\n".join(text.splitlines()[-60:])
+        tail = "\n".join(
+            [ln for ln in text.splitlines() if not ln.startswith(("Parsing file", "Semantic processing", "Linting of"))][-40:]
+        )
         raise TLCError("TLC failed (rc=%s): %s\n%s" % (proc.returncode, res.cmd, tail))
     if simulate is None and res.generated == 0 and res.violation is None:
         raise TLCError("TLC reported no states: %s\n%s" % (res.cmd, text[-2000:]))
